@@ -126,6 +126,10 @@ func runC06(c *Check, w *World) {
 		}
 	}
 	ruleHistoryIndependence(c, w, tb, ef, "R06.H", gen, val)
+	// "the same secret, suite and input": neither operation writes into its arguments (padding appended into a caller's
+	// spare capacity wipes the field stored behind it, and validation then derives from other bytes than generation)
+	ruleNoParamWrites(c, w, tb, ef, "R06.7", []*ssa.Function{gen, val})
+	c.Floor("R06.7", 2)
 	checkRESTEndpoints(c, w, tb, ef, "R06.REST", "/ocra/generate", "/ocra/validate")
 	c.Floor("R06.1", 2)
 	c.Floor("R06.2", 1)
@@ -139,7 +143,8 @@ func init() {
 		level: "other",
 		explain: "No numerical argument is needed: equivalence follows from sharing. R06.1 GenerateOCRA and ValidateOCRA each reach exactly one call of the same derivation function, with (DecodeSecret(secret), the caller's suite, the caller's input) — terms bound through the closure; R06.2 the length test is against Config().Digits of that suite; " +
 			"R06.6 the constant-time comparison is between the whole submitted string and the whole first result of that derivation call, accepted only where the result == 1; R06.4 the comparison is reached only under err == nil of the derivation, and every return of every (bool,error) function on the path is a well-formed verdict (decode / suite / input errors ⇒ (false, that error)). " +
-			"The shared path keeps no state between calls (pool discipline, no package state).",
+			"The shared path keeps no state between calls (pool discipline, no package state). " +
+			"Acceptance additionally requires that the derivation's error was found nil (a failed derivation yields an empty string that an empty code would match).",
 		quick:    []Config{CfgNative},
 		thorough: []Config{CfgNative, Cfg386},
 		run:      runC06,
